@@ -1,16 +1,32 @@
 open Shell
+(* Replays a traced sampler run through the extracted shell machine (Shell2.step with table-backed oracles).
+   Input, one item per line:
+     N <n_batch>
+     P <pid> <in_cube 0/1> <lik vid> <blob vid> <contains row as 0/1 string, one char per bound id>
+     AB <bid> | ABF | EE <0/1> | SD <0/1>
+     AS <idx or -1>   followed by   R <np> props.. <nr> replaced.. <nu> used..   (one per round)   and   V lik blob lik blob ...
+     X       dump the model state
+   Output: REJECT lines and state dumps. *)
 let rec pos_of_int n = if n <= 1 then XH else if n land 1 = 0 then XO (pos_of_int (n lsr 1)) else XI (pos_of_int (n lsr 1))
 let rec int_of_pos = function XH -> 1 | XO p -> 2 * int_of_pos p | XI p -> 2 * int_of_pos p + 1
 let rec nat_of_int n = if n <= 0 then O else S (nat_of_int (n - 1))
-let rec int_of_nat = function O -> 0 | S n -> 1 + int_of_nat n
+let int_of_nat n = let rec go acc = function O -> acc | S m -> go (acc + 1) m in go 0 n
 let words l = List.filter (fun s -> s <> "") (String.split_on_char ' ' l)
 let ints ws = List.map int_of_string ws
 let rec take n l = if n = 0 then ([], l) else match l with x :: r -> let (a, b) = take (n - 1) r in (x :: a, b) | [] -> failwith "take"
+let cat l = String.concat "," (List.map (fun p -> string_of_int (int_of_pos p)) l)
 let () =
   let ic = open_in Sys.argv.(1) in
   let tbl = ref t_empty and nb = ref O and st = ref (Some init) and k = ref 0 in
   let pending_as = ref None in
-  let apply ev = incr k; match !st with
+  (* run() call structure: RUN .. IT .. ENDRUN *)
+  let in_run = ref false and rc = ref { rc_lim = None; rc_nshell = O; rc_discard = false } and s0 = ref None in
+  let first = ref [] and its = ref [] and cur = ref None in
+  let record ev = if !in_run then (match !cur with
+      | None -> first := ev :: !first
+      | Some (t, n, evs) -> cur := Some (t, n, ev :: evs)) in
+  let close_it () = (match !cur with Some (t, n, evs) -> its := { i_timeout = t; i_neff = n; i_events = List.rev evs } :: !its | None -> ()); cur := None in
+  let apply ev = incr k; record ev; match !st with
     | None -> ()
     | Some s -> (match step_t !tbl !nb s ev with
         | Some s' -> st := Some s'
@@ -19,11 +35,10 @@ let () =
     let l = input_line ic in
     match words l with
     | "N" :: [n] -> nb := nat_of_int (int_of_string n)
-    | "P" :: p :: c :: lk :: bl :: [row] ->
+    | "P" :: p :: c :: lk :: bl :: rest ->
+        let row = match rest with [r] -> r | _ -> "" in
         let r = List.init (String.length row) (fun i -> row.[i] = '1') in
         tbl := t_add (pos_of_int (int_of_string p)) (((r, c = "1"), pos_of_int (int_of_string lk)), pos_of_int (int_of_string bl)) !tbl
-    | "P" :: p :: c :: lk :: bl :: [] ->
-        tbl := t_add (pos_of_int (int_of_string p)) ((([], c = "1"), pos_of_int (int_of_string lk)), pos_of_int (int_of_string bl)) !tbl
     | "AB" :: [b] -> apply (EvAddBoundOk (pos_of_int (int_of_string b)))
     | ["ABF"] -> apply EvAddBoundFail
     | "EE" :: [d] -> apply (EvEndExploration (d = "1"))
@@ -40,14 +55,30 @@ let () =
         let xs = ints rest in
         let rec pairs = function a :: b :: r -> (pos_of_int a, pos_of_int b) :: pairs r | _ -> [] in
         (match !pending_as with Some (i, rs) -> apply (EvAddSamples (i, List.rev rs, pairs xs)); pending_as := None | None -> failwith "V without AS")
+    | ["RUN"; lim; nsh; disc] ->
+        in_run := true; s0 := !st; first := []; its := []; cur := None;
+        rc := { rc_lim = (if lim = "-1" then None else Some (nat_of_int (int_of_string lim))); rc_nshell = nat_of_int (int_of_string nsh); rc_discard = (disc = "1") }
+    | ["IT"; t; n] -> close_it (); cur := Some (t = "1", n = "1", [])
+    | ["ENDRUN"; ft; fn; ret] ->
+        close_it (); in_run := false;
+        (match !s0 with
+         | None -> print_endline "RUNBAD no-state"
+         | Some s -> (match run_call_t !tbl !nb !rc (List.rev !first) (List.rev !its) (ft = "1") (fn = "1") s with
+            | None -> Printf.printf "RUNBAD rejected iterations=%d\n" (List.length !its)
+            | Some (s', r) ->
+              if r <> (ret = "1") then Printf.printf "RUNBAD return model=%b implementation=%s\n" r ret
+              else if Some s' <> !st then print_endline "RUNBAD state"
+              else Printf.printf "RUNOK iterations=%d ret=%b\n" (List.length !its) r))
     | ["X"] ->
         (match !st with
          | None -> print_endline "STATE none"
          | Some s ->
-           let cat l = String.concat "," (List.map (fun p -> string_of_int (int_of_pos p)) l) in
            List.iter (fun sh -> Printf.printf "SH %d ns=%d nse=%d ee=%d pts=%s lls=%s bls=%s\n" (int_of_pos sh.bnd) (int_of_nat sh.nsample) (int_of_nat sh.nsample_exp) (int_of_nat sh.end_exp)
              (cat sh.pts) (cat sh.lls) (cat sh.bls)) s.shells;
-           Printf.printf "NLIKE %d EXPLORED %b\n" (int_of_nat s.n_like) s.explored)
+           Printf.printf "T pts=%s lls=%s bls=%s from=%s\n" (cat s.t_pts) (cat s.t_lls) (cat s.t_bls)
+             (String.concat "," (List.map (function None -> "-1" | Some n -> string_of_int (int_of_nat n)) s.t_from));
+           Printf.printf "ST nlike=%d explored=%b discard=%b\n" (int_of_nat s.n_like) s.explored s.discard);
+        print_endline "END"
     | _ -> ()
   done with End_of_file -> ());
   Printf.printf "DONE events=%d accepted=%b\n" !k (!st <> None)
